@@ -472,6 +472,8 @@ class MBXMLDocument:
 
                 if valid_candidate:
                     t: MBXMLToken = copy(tokendef_setting)
+                    # the copy is shallow, do not modify attribute list of the token definition itself
+                    t.attributes = list(tokendef_setting.attributes)
                     t.token_id = tokendef_id
                     t.value = value
 
